@@ -25,7 +25,8 @@ RULE = ("Hypothesis draws well-formed definition closures (vlib.defgen.programs:
         "struct-contains-message, string-special, prefix-names - are enabled in every second program, singly and together; every shard starts "
         "with hand-written covering programs (constants whose names contain one another - CHANS/CHANS_MAX, LEN/MAX_LEN, N1/N10 - used "
         "together in expressions and array lengths; alias chains of length 2 and 3 ending in an imported struct, used as scalar and array "
-        "field in a struct and in messages; the 26 native names; long float constants).  "
+        "field in a struct and in messages; the 26 native names; long float constants) and with files whose constant / string constant / alias / host id / struct is named like "
+        "something the generated Python module uses itself (Double, Struct, ClassVar, MessageData, ...; the compiler may refuse them).  "
         "Every program is compiled in-process; then: the Python module is imported in a pristine interpreter (a brand-new process for the "
         "first two programs of every shard, otherwise a fork of a process that has only imported pyrtma) and get_msg_cls(id) must be the "
         "class of every message; gcc -fsyntax-only must accept the header (closures that do not use core type names); node imports the "
@@ -37,6 +38,7 @@ ASSUME = [
     "the MATLAB script hard-codes RTMA.MESSAGE_HEADER = RTMA.typedefs.RTMA_MSG_HEADER, which exists only with the core definitions imported: without them that one line is skipped",
     "the C header omits the core definitions on purpose (C clients include RTMA.h, not in the repository): it is compiled only for closures that use no core type name",
     "identifiers come from a vocabulary legal in Python, C, JavaScript and MATLAB",
+    "a definition named like something the generated Python module uses itself may be refused by the compiler (counted only); field names with a leading underscore are not legal MATLAB identifiers and are C04's subject (near misses), not C15's",
     "array length 0 is not a documented construct and is not generated here (C04 covers it)",
     "most Python modules are imported in a fork of an interpreter that has done nothing but `import pyrtma` (same state as a fresh interpreter, without its start-up cost)",
 ]
@@ -214,6 +216,36 @@ def run_case(E: L.Examiner, program: G.Program, res: Result = None, fresh_py=Tru
     return fnd
 
 
+class _NoModel:
+    """Stands in for the generator's model of hand-written files."""
+    classes = frozenset()
+
+    def by_name(self, name):
+        raise KeyError(name)
+
+    def resolve_type(self, name):
+        raise KeyError(name)
+
+
+def run_module_name_case(E: L.Examiner, kind, name, src, opts, res: Result = None):
+    ex = E.examine(src, opts, expect=None, fresh_py="fork", c_mode="syntax")
+    if res is not None:
+        res.count("module-name-programs")
+        res.inconclusive += len(ex.timeouts)
+    if ex.compile_error is not None and ex.compile_error.is_parser_error:
+        if res is not None:
+            res.count("module-name-programs/refused-by-the-compiler")
+        return []
+    dk = kind.split("/")[-1]
+    out = []
+    for key, what in case_findings(_NoModel(), ex):
+        lang, fail = key.split("/")[:2]
+        out.append((f"{lang}/{fail}/name-used-by-generated-python-{dk}", f"[{dk} named {name}] {what}"))
+    if res is not None:
+        res.count("module-name-programs/accepted")
+    return out
+
+
 def st_programs():
     plain = G.programs()
     skel = G.programs(skeleton=True)
@@ -245,6 +277,19 @@ def shard(seed, n, idx, quick):
                 res.add_finding(key, what, {"key": key, "program": program.to_json()})
             res.evaluations += 1
             res.count("covering-programs")
+        # definitions named like something the generated Python module imports or defines for itself (Double, Struct, ClassVar,
+        # MessageData, ...): legal identifiers in all four languages.  The compiler may refuse them; if it accepts one, every
+        # output must load.  Rotating slice in the quick tier, all 135 in the thorough tier.
+        from checks.c04 import module_name_cases
+
+        mn = [c for j, c in enumerate(module_name_cases()) if j % 16 == idx]
+        if quick:
+            start = (seed * 3) % len(mn)
+            mn = [mn[(start + j) % len(mn)] for j in range(2)]
+        for kind, name, src, opts in mn:
+            for key, what in run_module_name_case(E, kind, name, src, opts, res):
+                res.add_finding(key, what, {"key": key, "module_name": [kind, name], "src": src, "opts": opts})
+            res.evaluations += 1
         hyp_run(body, st_programs(), seed, n, res, collect=True)
     finally:
         E.close()
@@ -260,10 +305,12 @@ def run(ctx: RunContext) -> int:
 
 
 def replay_trace(trace: dict):
-    program = G.Program.from_json(trace["program"])
     E = L.Examiner()
     try:
-        fnd = run_case(E, program, None, fresh_py=True)
+        if "module_name" in trace:
+            fnd = run_module_name_case(E, trace["module_name"][0], trace["module_name"][1], trace["src"], trace["opts"], None)
+        else:
+            fnd = run_case(E, G.Program.from_json(trace["program"]), None, fresh_py=True)
     finally:
         E.close()
         L.cleanup()
